@@ -1,11 +1,11 @@
 """C02 - every instruction takes its documented number of machine cycles."""
-from engine.driver import run_property
+from engine.driver import run_property, LemmaTask
 from props.common import filter_tasks, TRUSTED, BASE_ASSUME
 import props.cpu_common as cc
 
 MANIFEST = {
     "level": "proof",
-    "text": "The per-opcode lemmas of C01 (real ExecuteMachineCycle + real isFinished over the dispatch tables computed by the real Initialize, all 501 defined opcodes) additionally prove that the number of ExecuteMachineCycle calls between two instruction boundaries equals the documented cycle count; for the 16 conditional opcodes F is symbolic, the lemma splits on the real early-finish test (isFinishedEarly closures with their captured flag predicate and early/last constants) and proves that the early exit is taken exactly when the documented condition on the current flags is false, for all 16 flag nibbles at once.",
+    "text": "The per-opcode lemmas of C01 (real ExecuteMachineCycle + real isFinished over the dispatch tables computed by the real Initialize, all 501 defined opcodes) additionally prove that the number of ExecuteMachineCycle calls between two instruction boundaries equals the documented cycle count; for the 16 conditional opcodes F is symbolic, the lemma splits on the real early-finish test (isFinishedEarly closures with their captured flag predicate and early/last constants) and proves that the early exit is taken exactly when the documented condition on the current flags is false, for all 16 flag nibbles at once. HALT: the timing clauses of the HALT lemmas are obligations here as well - HALT takes one cycle and then idles or (IME clear, request pending) continues at once, a wake-up with IME set dispatches after 6 cycles, one without IME takes exactly one cycle before the next fetch. All opcode lemmas start from an arbitrary instruction boundary, including one with a delayed EI pending.",
     "note": "Same trusted base and hypotheses as C01. The documented cycle table is spec/sm83.py (Appendix C of DESIGN.md); the thorough tier cross-checks it against the repository's own metadata table. Interrupt dispatch length is C04's, HALT wake-up length C05's obligation.",
     "technique": "per-opcode lemmas over the real go/ssa against an ISA timing table; z3",
     "design_ref": "DESIGN.md section 4 C02",
@@ -14,7 +14,14 @@ ASSUME = BASE_ASSUME + ["spec/sm83.py cycle table is the oracle (documentation-d
 
 
 def tasks(ctx):
-    return filter_tasks([cc.opcode_task("C02", ch, i) for i, ch in enumerate(cc.opcode_chunks(32))])
+    ts = [cc.opcode_task("C02", ch, i) for i, ch in enumerate(cc.opcode_chunks(32))]
+    # HALT's timing depends on what it decides: one machine cycle, then idle (halted), or - IME clear with a request already
+    # pending - no idle at all (the next fetch follows at once); wake-up costs one extra cycle before a dispatch and exactly one
+    # cycle without IME. These are the timing clauses of the HALT lemmas (C05 owns the rest).
+    t = LemmaTask("lemma:halt", cc.halt_lemmas, ["(*cpu.CPU).halt", "(*cpu.CPU).checkInterrupts", "(*cpu.CPU).next"])
+    t.keep = lambda name: any(k in name for k in (":decision", ":one-cycle", ":cycles", ":then-next-instruction", "canary", ":flow"))
+    ts.append(t)
+    return filter_tasks(ts)
 
 
 def run(tier, seed):
